@@ -360,6 +360,48 @@ PROPS["C19"] = {
                         "emacs mode; sub-loop = digit argument"],
     }
 
+PROPS["C20"] = {
+        "module": "Rl.Props.C20",
+        "features": "sqlite",
+        "targets": [{"name": "sqlite", "gen": "sqlite", "header_tokens": 4}],
+        "shards": {"quick": 8, "thorough": 16},
+        "trivial_impl_regex": r"",
+        "rule": "sqlite: SQLiteHistory on a temporary database file through the public API. (1) exhaustive: every sequence of <=2 "
+                "(thorough <=3) store mutators (add x5 lines incl. empty / blank-led / mixed case, set_max_len 0..2, ignore_dups / "
+                "ignore_space on/off, reopen with 3 configurations, 2 abrupt terminations: a forked child opens the file, adds lines and "
+                "_exit()s without closing, the parent reopens) from 3 initial configurations, the editor's walk (previous-history to the "
+                "oldest entry, next-history back) after every step and a probe battery at the end (len, get 0..4 both directions, "
+                "search / starts_with x 6 texts x start 0..3 x both directions, hinter, walk); (2) every search text of length <=3 "
+                "(thorough <=4) over {a b A \" ' ( ) * - : ^ ! space e-acute} x {search, starts_with} x both directions x 3 starts + "
+                "HistoryHinter, against two fixed stores in which every alphabet character occurs at the start / inside / end of a token; "
+                "(3) 3000 (thorough 60000) random sequences of <=25 (<=50) ops mixing all of the above, search texts mostly pieces of "
+                "stored lines with case flips and query syntax appended. Oracle on the implementation: add verdicts, walk = accepted "
+                "lines (newest occurrence per session when ignore-dups is on, newest n after set_max_len n) each once in order both ways, "
+                "a search hit is a stored line containing / starting with the text ignoring ASCII case at an in-range char-boundary "
+                "offset, no error, no hinter panic. distinct = hash of the request.",
+        "exhaustive": {"quick": True, "thorough": True},
+        "trusted_base": [
+            "SQLite itself: durability of committed statements, rowid allocation (max+1, chosen before REPLACE deletes), unique-index "
+            "conflict handling, trigger execution with recursive_triggers=1 — modelled in Rl/Sqlite.lean as an abstract row store and "
+            "correspondence-checked, not proved",
+            "FTS4 tokenizer `simple` and the MATCH query parser: an oracle parameter `fts` in the model and in every theorem; the driver "
+            "instantiates it with Rl.Sq.ftsSimple (phrase of ASCII-folded alphanumeric/non-ASCII tokens, optional ^ anchor, optional "
+            "prefix star), agreement with SQLite is part of this correspondence on the alphabet only",
+            "str::find modelled as naive first-match search (Rl.findSub), to_ascii_lowercase as Char.toLower",
+            "abrupt termination is _exit() of a forked child (no destructor, no sqlite3_close); power loss / torn pages are not exercised",
+            "char::is_whitespace taken from the implementation via the charinfo header"],
+        "level_text": "Unbounded Lean theorems about the row-store model of SQLiteHistory, for every FTS oracle: refusal rule iff; an accepted "
+                      "line becomes the newest row and replaces its older occurrence of the same session under ignore-dups; rowid order "
+                      "invariant over all operation sequences; the editor's walk visits every stored row exactly once each way in order; "
+                      "reopening the same file yields the same walk; a search / starts_with hit really contains / starts with the text "
+                      "ignoring ASCII case at an in-range boundary offset and the hinter cannot panic. The model is tied to /repo by an "
+                      "exhaustive + random differential run on real database files, including abrupt termination.",
+        "level_note": "Trusted: Lean kernel; harness/diff; SQLite engine semantics as modelled (row store, FTS oracle) — "
+                      "correspondence-checked only.",
+        "assumptions": ["one connection at a time on the database file (the harness drops the handle before another process opens it)",
+                        "feature with-sqlite-history (off by default) — the harness is built with it"],
+    }
+
 # properties not (yet) claimed, with the reason (kept current; see DESIGN.md)
 NOT_APPLICABLE = {
 }
